@@ -38,6 +38,12 @@ def obligations(ctx):
             obs.append(ag.api_writeset_ob(t, api, 8, 0, avx, 2, 2, nrows=2, ncols=2))
     for api in (1, 2, 3):
         obs.append(ag.api_writeset_ob(t, api, 4, 1, 1, 2, 2))
+    # the write set only sees the paths a shape executes: the vmp drivers are run over their branch structure as well (odd / even last column,
+    # truncated and extended outputs, fewer rows than the matrix has, the N<8 column-major path)
+    for api in (8, 9):
+        for (nn, rsz, asz, nrows, ncols) in ((8, 1, 2, 2, 2), (8, 3, 1, 3, 4), (8, 5, 3, 2, 4), (8, 0, 2, 2, 3), (8, 2, 0, 2, 2), (4, 3, 2, 2, 4), (16, 3, 2, 2, 4)):
+            for avx in (0, 1):
+                obs.append(ag.api_writeset_ob(t, api, nn, 0, avx, rsz, asz, nrows=nrows, ncols=ncols))
     # (3) warm-up protocol of the *_simple functions
     obs += [o for o in c15.history_obs(ctx) if "/avx=1" in o.name or "same-dim" in o.name]
     # (4) thread-local caches under call-granularity interleavings of two threads
